@@ -579,24 +579,30 @@ int KSI_TreeBuilder_close(KSI_TreeBuilder *builder) {
 
 	if (builder->rootNode == NULL) {
 		size_t i;
+		size_t rootAt = 0;
 
-		/* Finalize the forest of complete binary trees into a single tree. */
+		/* Finalize the forest of complete binary trees into a single tree. Every node stays
+		 * in the stack (and thus owned by the builder) until the whole operation has succeeded. */
 		for (i = 0; i < KSI_TREE_BUILDER_STACK_LEN; i++) {
 			KSI_TreeNode *node = builder->stack[i];
-			builder->stack[i] = NULL;
 
 			if (node == NULL) continue;
 
 			if (root == NULL) {
 				root = node;
+				rootAt = i;
 			} else {
 				res = KSI_TreeNode_join(builder->ctx, builder->hsr, node, root, &tmp);
 				if (res != KSI_OK) goto cleanup;
 
+				builder->stack[rootAt] = NULL;
+				builder->stack[i] = tmp;
 				root = tmp;
+				rootAt = i;
 				tmp = NULL;
 			}
 		}
+		if (root != NULL) builder->stack[rootAt] = NULL;
 	} else {
 		KSI_pushError(builder->ctx, res = KSI_INVALID_STATE, "The tree has already been closed.");
 		goto cleanup;
